@@ -44,6 +44,7 @@ def ufs (cmd : String) (args : List String) : Option String :=
     let comps := if p == "-" then [] else p.splitOn "/"
     some ("/" ++ "/".intercalate (clean comps))
   | "ufsjudge", _ => some "*"
+  | "ufswitness", _ => some "*"
   | _, _ => none
 
 end G9.Driver
